@@ -99,10 +99,10 @@ PROP_SUITES = {
     "C19": ["e2e", "provider"],
     "C01": ["system", "classify"],
     "C02": ["system", "provider"],
-    "C03": ["system", "fee"],
+    "C03": ["system", "fee", "classify"],
     "C04": ["system", "height"],
     "C05": ["system", "provider"],
-    "C07": ["system"],
+    "C07": ["system", "classify"],
     "C08": ["system"],
     "C11": ["system"],
     "C06": ["system", "tlv", "classify", "e2e", "fee"],
@@ -116,7 +116,7 @@ OP_PROPS = {
     "tu": ["C18", "C10"], "gcs": ["C18", "C13", "C06", "C10"], "pcs": ["C18", "C13"],
     "get": ["C13", "C10"], "rm": ["C13"],
     "fs": ["C12", "C03", "C06", "C07", "C04"], "ef": ["C12", "C11", "C06"],
-    "cl": ["C10", "C13", "C01", "C06"],
+    "cl": ["C10", "C13", "C01", "C06", "C03", "C07"],
     "hw": ["C20", "C04"], "wf": ["C17"], "wd": ["C17", "C06"],
     "sy": ["C01", "C02", "C03", "C04", "C05", "C06", "C07", "C08", "C09", "C11", "C12", "C13", "C14"],
     "cf": ["C19"], "hx": ["C06", "C13"],
